@@ -204,6 +204,10 @@ impl DatabaseCheckpoint {
 		// Step 7: Copy VLog directories if enabled
 		let vlog_size = self.copy_vlog_directories(checkpoint_path)?;
 
+		// Step 7b: Copy the B+tree version index: it holds the history of everything
+		// flushed so far and belongs to the checkpointed state like the tables do
+		let vlog_size = vlog_size + self.copy_versioned_index(checkpoint_path)?;
+
 		// Step 8: Create checkpoint metadata
 		let timestamp = SystemTime::now().duration_since(UNIX_EPOCH).unwrap().as_secs();
 
@@ -260,6 +264,21 @@ impl DatabaseCheckpoint {
 
 		// Restore VLog directories if they exist in the checkpoint
 		self.restore_vlog_directories(checkpoint_path)?;
+
+		// Replace the version index by the checkpointed one (or by nothing: what the
+		// current file holds describes the timeline that is being discarded)
+		if self.core.opts.enable_versioned_index {
+			let index_source = checkpoint_path.join("versioned_index");
+			let index_dest = self.core.opts.versioned_index_dir();
+			if index_dest.exists() {
+				fs::remove_dir_all(&index_dest).map_err(|e| Error::Io(Arc::new(e)))?;
+			}
+			if index_source.exists() {
+				copy_dir_all(&index_source, &index_dest).map_err(|e| Error::Io(Arc::new(e)))?;
+			} else {
+				fs::create_dir_all(&index_dest).map_err(|e| Error::Io(Arc::new(e)))?;
+			}
+		}
 
 		Ok(metadata)
 	}
@@ -370,6 +389,23 @@ impl DatabaseCheckpoint {
 		}
 
 		Ok(total_size)
+	}
+
+	/// Copies the B+tree version index (if enabled) into the checkpoint.
+	fn copy_versioned_index(&self, dest_dir: &Path) -> Result<u64> {
+		let Some(ref versioned_index) = self.core.versioned_index else {
+			return Ok(0);
+		};
+		// Pages are written through to the file; holding the lock keeps a flush from
+		// updating the tree while it is being copied.
+		let _guard = versioned_index.read();
+		let index_source = self.core.opts.versioned_index_dir();
+		let index_dest = dest_dir.join("versioned_index");
+		if !index_source.exists() {
+			return Ok(0);
+		}
+		copy_dir_all(&index_source, &index_dest).map_err(|e| Error::Io(Arc::new(e)))?;
+		Self::calculate_directory_size(&index_dest)
 	}
 
 	/// Calculates the total size of a directory recursively
